@@ -7,10 +7,14 @@ from manifest_table import CHECKS, NOT_APPLICABLE, NOTES
 
 ids = [json.loads(l)["id"] for l in open(os.path.join(HERE, "..", "properties.jsonl"))]
 checks = []
+ENABLED = set(open(os.path.join(HERE, "enabled.txt")).read().split())
+CATS = {"exploration", "fault_enumeration", "model_checking", "proof", "translation_validation", "other"}
 for pid in ids:
-    if pid not in CHECKS:
+    if pid not in CHECKS or pid not in ENABLED:
         continue
     c = CHECKS[pid]
+    if c.get("category", "proof") not in CATS:
+        c["category"] = "proof"
     checks.append({
         "property_id": pid,
         "quick_cmd": "./check %s --tier quick" % pid,
@@ -22,7 +26,7 @@ for pid in ids:
         "level_note": c["note"],
         "technique": c["technique"],
     })
-na = [{"property_id": p, "reason": NOT_APPLICABLE[p]} for p in ids if p not in CHECKS]
+na = [{"property_id": p, "reason": NOT_APPLICABLE[p]} for p in ids if p not in {c["property_id"] for c in checks}]
 m = {
     "version": 1,
     "setup_cmd": "./setup.sh",
@@ -36,10 +40,7 @@ m = {
     "not_applicable": na,
 }
 out = os.path.join(HERE, "..", "MANIFEST.json")
+import jsonschema
+jsonschema.validate(m, json.load(open("/root/.vp/MANIFEST.schema.json")))   # never write an invalid manifest
 json.dump(m, open(out, "w"), indent=1)
-try:
-    import jsonschema
-    jsonschema.validate(m, json.load(open("/root/.vp/MANIFEST.schema.json")))
-    print("MANIFEST.json valid;", len(checks), "checks,", len(na), "not claimed")
-except ImportError:
-    print("written (jsonschema not importable here)")
+print("MANIFEST.json valid;", len(checks), "checks,", len(na), "not claimed")
